@@ -29,6 +29,8 @@ func main() {
 		list()
 	case "mutants":
 		os.Exit(mutantsCmd(os.Args[2:]))
+	case "alarms":
+		os.Exit(alarms(os.Args[2:]))
 	default:
 		usage()
 	}
@@ -199,4 +201,66 @@ func list() {
 	for _, id := range ids {
 		fmt.Printf("%s  %s\n", id, rules.Meta[id].Title)
 	}
+}
+
+// alarms (tooling for evaluating seeded changes, never part of a verdict): loads the tree once, runs the quick rules
+// of every listed property and prints {"Cxx": ["rule key: detail", ...]} for the obligations that would make the
+// check fail (violated or undecided, not a listed known finding).
+func alarms(args []string) int {
+	o := parse(args)
+	props := []string{}
+	if o.property == "" || o.property == "all" {
+		for id := range rules.Meta {
+			props = append(props, id)
+		}
+	} else {
+		props = strings.Split(o.property, ",")
+	}
+	sort.Strings(props)
+	findings, _ := core.LoadFindings(filepath.Join(o.verif, "known_findings.json"))
+	known := map[string]bool{}
+	for _, f := range findings {
+		if f.Status == "known" {
+			known[f.Property+"|"+f.Rule+"|"+f.Key] = true
+		}
+	}
+	out := map[string][]string{}
+	overlay, _ := readOverlay(o.overlay)
+	p, err := core.Load(o.repo, "", overlay)
+	if err != nil {
+		for _, id := range props {
+			out[id] = []string{"R0 load: " + err.Error()}
+		}
+	} else {
+		for _, id := range props {
+			func() {
+				defer func() {
+					if r := recover(); r != nil {
+						out[id] = append(out[id], fmt.Sprintf("R0 analysis panic: %v", r))
+					}
+				}()
+				ctx := core.NewCtx(p, id, "default")
+				if err := rules.Run(id, ctx); err != nil {
+					out[id] = append(out[id], "R0 "+err.Error())
+					return
+				}
+				ctx.Finish()
+				res := &core.Result{Property: id}
+				res.Merge(ctx)
+				for _, ob := range res.Obs {
+					if (ob.Status == core.Violated || ob.Status == core.Undecided) && !known[id+"|"+ob.Rule+"|"+ob.Key] {
+						d := ob.Detail
+						if len(d) > 220 {
+							d = d[:220]
+						}
+						out[id] = append(out[id], fmt.Sprintf("%s %s: %s", ob.Rule, ob.Key, d))
+					}
+				}
+			}()
+		}
+	}
+	b, _ := json.MarshalIndent(out, "", " ")
+	os.Stdout.Write(b)
+	fmt.Println()
+	return 0
 }
